@@ -77,6 +77,22 @@ def specListArm (elem : Prim) (n : Option Nat) (path : Path) (v : Val) : Option 
   | none => none
   | some k => specPrimList elem path k v
 
+def specFieldWith (g : Path → Option Int → Val → Option (List Byte × List SEv)) (tname : String) :
+    FKind → Path → List (String × Val) → Val → Option (List Byte × List SEv)
+  | .plain, fpath, _, v => g fpath none v
+  | .selected sel, fpath, vals, v =>
+    match selOf vals sel with
+    | .crash _ => none
+    | .sel sv => g fpath sv v
+  | .counted, fpath, vals, v =>
+    match countOf vals, v.asList with
+    | .count c, some es =>
+      if es.length = c then
+        (specRepeat (fun p v => g p none v) fpath es 0).map fun (b, e) =>
+          (b, (0, ⟨fpath, .listOf tname, none, ""⟩) :: e)
+      else none
+    | _, _ => none
+
 mutual
 def spec : Ty → Path → Option Int → Val → Option (List Byte × List SEv)
   | .prim p, path, _, v => specPrim p path v
@@ -123,6 +139,7 @@ def spec : Ty → Path → Option Int → Val → Option (List Byte × List SEv)
     | some an =>
       (specArm arms name an path v).map fun (b, e) => (b, (0, ⟨path, .named name false, none, ""⟩) :: e)
   | .bad _, _, _, _ => none
+termination_by structural t => t
 
 def specArm : Arms → String → String → Path → Val → Option (List Byte × List SEv)
   | .nil, _, _, _, _ => none
@@ -140,32 +157,19 @@ def specArm : Arms → String → String → Path → Val → Option (List Byte 
       | none => none
       | some av => specListArm elem n (path ++ [⟨an, none⟩]) av
     else specArm rest un want path v
+termination_by structural arms => arms
 
 def specFields : Fields → Path → List (String × Val) → List (String × Val) → Option (List Byte × List SEv)
   | .nil, _, _, fvs => if fvs.isEmpty then some ([], []) else none
   | .cons _ _ _ _, _, _, [] => none
   | .cons fname kind t rest, path, vals, (fn, v) :: fvs' =>
     if fn = fname then
-      match specField kind t (path ++ [⟨fname, none⟩]) vals v with
+      match specFieldWith (fun p sel v => spec t p sel v) t.name kind (path ++ [⟨fname, none⟩]) vals v with
       | none => none
       | some (b, e) =>
         match specFields rest path (vals ++ [(fname, v)]) fvs' with
         | none => none
         | some (bs, es) => some (b ++ bs, e ++ shift b.length es)
     else none
-
-def specField : FKind → Ty → Path → List (String × Val) → Val → Option (List Byte × List SEv)
-  | .plain, t, fpath, _, v => spec t fpath none v
-  | .selected sel, t, fpath, vals, v =>
-    match selOf vals sel with
-    | .crash _ => none
-    | .sel sv => spec t fpath sv v
-  | .counted, t, fpath, vals, v =>
-    match countOf vals, v.asList with
-    | .count c, some es =>
-      if es.length = c then
-        (specRepeat (fun p v => spec t p none v) fpath es 0).map fun (b, e) =>
-          (b, (0, ⟨fpath, .listOf t.name, none, ""⟩) :: e)
-      else none
-    | _, _ => none
+termination_by structural fs => fs
 end
